@@ -189,8 +189,8 @@ func (f *frame) resolveLocal(name string, e *Env) (SV, bool) {
 				continue
 			}
 		}
-		if ctx == nil && defBlock != nil {
-			// function exit context: value must dominate all returns; accept params/allocs only
+		if ctx == nil {
+			// function exit context: only address-taken locals have one well-defined value there
 			if _, isAlloc := r.v.(*ssa.Alloc); !isAlloc {
 				continue
 			}
